@@ -734,16 +734,14 @@ class Effect(DaeObject):
 
         for param in self.params:
             param.save()
-            if param.xmlnode not in profilenode:
-                profilenode.insert(list(profilenode).index(tecnode),
-                                   param.xmlnode)
 
-        deletenodes = []
-        for oldparam in profilenode.findall(tag('newparam')):
-            if oldparam not in [param.xmlnode for param in self.params]:
-                deletenodes.append(oldparam)
-        for d in deletenodes:
-            profilenode.remove(d)
+        # the <newparam> elements are the parameters, in list order, in front of <technique>
+        for parent in (profilenode, tecnode):
+            for oldparam in parent.findall(tag('newparam')):
+                parent.remove(oldparam)
+        loc = list(profilenode).index(tecnode)
+        for i, param in enumerate(self.params):
+            profilenode.insert(loc + i, param.xmlnode)
 
         for shader in self.shaders:
             shadnode = tecnode.find(tag(shader))
